@@ -102,8 +102,12 @@ pub uninterp spec fn dyn_owns_source(b: &Box<dyn Read>) -> bool;
 pub fn verif_box_dyn_Read<R: Read + 'static>(x: Box<R>) -> (r: Box<dyn Read>)
     ensures dyn_stream(&r) == (*x).stream(), dyn_release(&r) == (*x).release(), dyn_owns_source(&r) == (*x).owns_source()
 { x }
+/// identity of a writer value (U-CONN instantiates it with the finish channel of a SequentialWriter)
+pub uninterp spec fn wid<W>(w: W) -> int;
+pub uninterp spec fn dyn_wid(b: &Box<dyn Write>) -> int;
 #[verifier::external_body]
 pub fn verif_box_dyn_Write<W: Write + 'static>(x: Box<W>) -> (r: Box<dyn Write>)
+    ensures dyn_wid(&r) == wid(*x)
 { x }
 
 //@item src/request.rs struct Request
@@ -164,6 +168,7 @@ impl Request {
     pub closed spec fn keeps_source(&self) -> bool { dyn_owns_source(&self.data_reader->Some_0) }
     pub closed spec fn has_body_reader(&self) -> bool { self.data_reader is Some }
     pub closed spec fn answered(&self) -> bool { self.response_writer is None }
+    pub closed spec fn writer_id(&self) -> int { dyn_wid(&self.response_writer->Some_0) }
     pub closed spec fn declared_len(&self) -> Option<usize> { self.body_length }
     pub closed spec fn pending_continue(&self) -> bool { self.must_send_continue }
     pub closed spec fn hdrs(&self) -> Seq<Header> { self.headers@ }
@@ -173,7 +178,7 @@ impl Request {
     }
 }
 
-//@fn src/request.rs new_request ret res props C03,C09,C11,C13,C14,C15,C16,C18
+//@fn src/request.rs new_request ret res props C01,C03,C09,C11,C13,C14,C15,C16,C18
 //@spec
     ensures
         // C10/C18: an Expect value other than 100-continue (any letter case) is refused, nothing else is
@@ -198,8 +203,9 @@ impl Request {
         res is Ok && !f_upgrade(headers@) && (f_buffered(headers@) || f_cl(headers@) == Some(0usize) || (f_cl(headers@) is None && !f_te(headers@))) ==> !res->Ok_0.keeps_source(),   // [C11]
         // C18: the interim-response flag
         res is Ok ==> res->Ok_0.pending_continue() == f_continue(headers@),   // [C18]
-        // C06: the slot starts occupied
-        res is Ok ==> !res->Ok_0.answered(),   // [C06]
+        // C06: the slot starts occupied ... C01: by exactly the writer that was passed in (this is the clause
+        // `rq.writer_chan() == writer.wchan()` that U-CONN uses by contract)
+        res is Ok ==> !res->Ok_0.answered() && res->Ok_0.writer_id() == wid(writer),   // [C06,C01]
         // frame: everything else is handed over untouched
         res is Ok ==> res->Ok_0.hdrs() == headers@ && res->Ok_0.head_is(secure, method, path, version, remote_addr),   // [C03,C10,C12]
 //@after 1 let transfer_encoding
